@@ -388,6 +388,13 @@ def build(ty: Ty, rng=None, lit_ok=True):
     raise ValueError(f"unknown kind {k}")
 
 
+_POST_INIT_RAISERS = (
+    lambda: ValueError("post_init says no"), lambda: TypeError("post_init type"), lambda: KeyError('post_init key'),
+    lambda: env.ParseInterrupt(), lambda: env.ConvertError(env.m_errors.WrongTypeError('nothing', None)),
+    lambda: AttributeError('post_init attr'), lambda: ZeroDivisionError('post_init zero'), lambda: AssertionError(),
+)
+
+
 def build_class(spec: ClassM, base=None, extra_ns=None):
     """Create the pane dataclass described by `spec` with type(name, bases, ns, **options)."""
     ns = {'__module__': __name__, '__qualname__': spec.name}
@@ -423,10 +430,10 @@ def build_class(spec: ClassM, base=None, extra_ns=None):
     log = []
     pi = spec.post_init
     if pi is not None:
-        def __post_init__(self, _pi=pi, _log=log):
+        def __post_init__(self, _pi=pi, _log=log, _serial_no=spec.serial):
             _log.append(id(self))
             if _pi == 'raise':
-                raise ValueError("post_init says no")
+                raise _POST_INIT_RAISERS[_serial_no % len(_POST_INIT_RAISERS)]()
             if isinstance(_pi, tuple) and _pi[0] == 'raise_if':
                 if getattr(self, _pi[1], None) == _pi[2]:
                     raise KeyError(f"bad {_pi[1]}")
